@@ -255,7 +255,9 @@ func (a *apiServer) Subscribe(req *client.SubscribeRequest, out client.API_Subsc
 		case <-out.Context().Done():
 			return nil
 		case <-closedC:
-			return nil
+			// The subscription was canceled by the server. End the stream
+			// with the status it was canceled with, if any.
+			return sub.Status().Err()
 		case m := <-msgC:
 			if err := out.Send(m); err != nil {
 				return err
